@@ -152,7 +152,7 @@ def check_events(sp, w, handle, all_comps):
                                     for _, g in all_comps), 'callbacks', 'unexpected extra callbacks after enabling')
 
 
-def draw_shape(sp, max_procs, max_ents, max_comps):
+def draw_shape(sp, max_procs, max_ents, max_comps, small_ids=False, n_classes=3):
     procs = []
     np_ = sp.choose(max_procs + 1, 'n-procs')
     order = sp.choose(2, 'proc-order') if np_ else 0
@@ -164,15 +164,19 @@ def draw_shape(sp, max_procs, max_ents, max_comps):
     ne = sp.choose(max_ents + 1, 'n-ents')
     used_ids = set()
     for i in range(ne):
-        idk = sp.choose(5 if i == 0 else 3, 'ent%d-id' % i)
-        # none / string / int >= 100; the first entity may also get a FALSY explicit id (0 or '')
-        eid = [None, 'hero%d' % i, 100 + i, 0, ''][idk]
-        if idk >= 3:
+        # id kinds: none / string / int >= 100 / an int the id generator will produce (i+1) / falsy (0, '')
+        kinds = ['none', 'gen'] if small_ids else (['none', 'str', 'big', 'zero', 'empty'] if i == 0
+                                                   else ['none', 'str', 'gen'])
+        kind = kinds[sp.choose(len(kinds), 'ent%d-id' % i)]
+        eid = {'none': None, 'str': 'hero%d' % i, 'big': 100 + i, 'gen': i + 1, 'zero': 0, 'empty': ''}[kind]
+        if kind in ('zero', 'empty'):
             sp.cover('falsy-id')
+        if kind == 'gen':
+            sp.cover('generator-id')
         nc = sp.choose(max_comps + 1, 'ent%d-n' % i)
         comps = []
         if nc >= 1:
-            c0 = sp.choose(len(COMP_CLASSES), 'ent%d-c0' % i)
+            c0 = sp.choose(n_classes, 'ent%d-c0' % i)
             comps.append(COMP_CLASSES[c0])
             if nc == 2:
                 c1 = sp.choose(len(COMP_CLASSES) - 1, 'ent%d-c1' % i)
@@ -181,9 +185,9 @@ def draw_shape(sp, max_procs, max_ents, max_comps):
     return procs, ents
 
 
-def h_shape(sp, max_procs=2, max_ents=2, max_comps=2, routes=2):
+def h_shape(sp, max_procs=2, max_ents=2, max_comps=2, routes=2, small_ids=False, n_classes=3, n_variants=3):
     route = sp.choose(routes, 'route')     # 0 = JSON file through WorldFromFileHandle, 1 = dictionary
-    procs, ents = draw_shape(sp, max_procs, max_ents, max_comps)
+    procs, ents = draw_shape(sp, max_procs, max_ents, max_comps, small_ids, n_classes)
     file_route = route == 0
     root, h1, h2 = make_tree(0)
 
@@ -209,7 +213,7 @@ def h_shape(sp, max_procs=2, max_ents=2, max_comps=2, routes=2):
             cl, cds = [], []
             for j, c in enumerate(comps):
                 cd = {'type': tname(c)}
-                variant = sp.choose(3, 'ent%d-c%d-args' % (n, j))
+                variant = sp.choose(n_variants, 'ent%d-c%d-args' % (n, j))
                 a, k = [], {}
                 if variant == 1:
                     a = [n, 'plain']
@@ -385,7 +389,7 @@ def h_strings_replay(sp, fname='', text=''):
 
 HARNESSES = {
     'shape': dict(fn=h_shape, nontrivial=['processors', 'explicit-id', 'auto-id', 'callbacks', 'falsy-id'],
-                  required=['processors', 'explicit-id', 'auto-id', 'callbacks', 'falsy-id']),
+                  required=['processors', 'explicit-id', 'auto-id', 'callbacks', 'falsy-id', 'generator-id']),
     'args': dict(fn=h_args, nontrivial=['kind-obj', 'kind-res', 'kind-handle', 'kind-mid-marker', 'kind-plain', 'kind-list'],
                  required=['kind-int', 'kind-obj', 'kind-obj-nested', 'kind-res', 'kind-res1', 'kind-handle', 'kind-mid-marker',
                            'kind-plain', 'kind-list', 'kind-dict', 'kind-none', 'res-through-composite-key']),
@@ -393,11 +397,15 @@ HARNESSES = {
     'strings-replay': dict(fn=h_strings_replay),
 }
 TIERS = {
-    'quick': [('shape', dict(max_procs=2, max_ents=2, max_comps=1)),
+    'quick': [('shape', dict(max_procs=1, max_ents=2, max_comps=1)),
+              ('shape', dict(max_procs=0, max_ents=3, max_comps=1, small_ids=True, n_classes=1, n_variants=1),
+               dict(required=['generator-id', 'auto-id', 'callbacks'])),
               ('args', dict(n_pos=1, n_kw=1)),
               ('strings', dict(conditions=[('passthrough', 'confirmed'), ('reach_passthrough', 'refuted'),
                                            ('object_marker', 'confirmed')], timeout=60))],
     'thorough': [('shape', dict(max_procs=2, max_ents=3, max_comps=2)),
+                 ('shape', dict(max_procs=0, max_ents=4, max_comps=1, small_ids=True, n_classes=2, n_variants=1),
+                  dict(required=['generator-id', 'auto-id', 'callbacks'])),
                  ('args', dict(n_pos=2, n_kw=1)),
                  ('strings', dict(conditions=[('passthrough', 'confirmed'), ('reach_passthrough', 'refuted'),
                                               ('object_marker', 'confirmed'), ('object_marker_long', 'confirmed')],
@@ -418,12 +426,12 @@ EXPLANATION = (
     '${name} is replaced by object_from_string(name) for every name up to the stated length.')
 RULE = ('one evaluation = one feasible path (one description) or one CrossHair path; non-trivial = the description has '
         'processors/explicit ids/automatic ids/handler callbacks or an argument of a resolving kind; CrossHair paths count as non-trivial')
-BOUNDS = {'quick': 'shape: <=2 processors, <=2 entities, <=1 component, 3 argument variants, file and dict route; '
+BOUNDS = {'quick': 'shape: <=1 processor, <=2 entities, <=1 component, 3 argument variants, 5 id kinds, file and dict route; <=3 entities with generator-range ids; '
                    'args: <=1 positional + <=1 keyword slot over 15 kinds x 3 attachment points; strings: unbounded (pass-through), |name|<=3',
           'thorough': 'shape: <=2 processors, <=3 entities, <=2 components; args: <=2 positional + <=1 keyword; strings: unbounded, |name|<=3 and <=6'}
 ASSUMPTIONS = [
     'references nested inside lists/dicts are not resolved (only top-level positions, by design)',
-    'explicit entity ids are strings, ints >= 100, or the falsy ids 0 and \'\' (no clash with automatic ids, which start at 1; clashes are C01)',
+    'explicit entity ids are strings, ints >= 100, the falsy ids 0 and \'\', or the small ints 1,2,3 that the id generator would produce (entities without id must then get other ids)',
     'components of one entity have distinct exact types; processors listed have distinct exact types and default priority',
     'object_from_string is stubbed by a recording function in the CrossHair ${name} condition (importlib on a symbolic string is out of reach)',
     'marker-looking strings that do start with a marker but are malformed (unterminated, trailing text) are not asserted on',
